@@ -8,6 +8,7 @@ sensitivity  every patch in /verif/mutants is applied to a scratch worktree of /
              /verif; GRAAF_SRC / VERIF_WS redirect the build there), the quick check of its property
              must exit 1 with a VIOLATION whose replay file reproduces; the unmodified tree must stay
              silent. Evidence, replays and logs of these runs go to a scratch directory.
+probes       reach probes that must be non-zero in the evidence of the last quick runs.
 benign       behaviour-preserving rewrites by independent sub-agents (/verif/benign): every listed check
              must stay silent.
 fidelity     the guard-off build (real std threads, real available_parallelism under taskset) must
@@ -189,6 +190,57 @@ def benign(only=None):
     return ok
 
 
+REQUIRED_PROBES = {
+    "C01": ["reach_probes/rejected_call_after_3_successful_mutations", "reach_probes/map_vertex_growth",
+            "reach_probes/matrix_order_squared_not_multiple_of_64", "reach_probes/weighted_readd_replaces_weight",
+            "reach_probes/remove_with_id_outside_V", "faults_injected/rejected_call/self_loop",
+            "faults_injected/rejected_call/out_of_range"],
+    "C11": ["reach_probes/union_operands_of_different_order", "reach_probes/union_partially_overlapping_vertex_sets",
+            "reach_probes/rows_exceed_workers", "faults_injected/ap_error", "faults_injected/stalled_worker"],
+    "C12": ["reach_probes/size_shortcut_passes_but_not_semicomplete", "reach_probes/size_shortcut_passes_but_not_tournament",
+            "reach_probes/rows_exceed_workers"],
+    "C14": ["reach_probes/matrix_beyond_one_word", "reach_probes/order_squared_not_multiple_of_64",
+            "reach_probes/biclique_part_longer_than_one_word", "reach_probes/rows_exceed_workers",
+            "faults_injected/inadmissible_parameter"],
+    "C15": ["reach_probes/erdos_renyi_via_complement", "reach_probes/seed_whose_first_draw_is_exactly_zero",
+            "reach_probes/p_1_with_a_draw_equal_to_zero", "reach_probes/same_cpu_other_schedule_compared",
+            "faults_injected/inadmissible_parameter", "faults_injected/stalled_worker"],
+    "C17": ["reach_probes/rows_exceed_workers", "reach_probes/same_cpu_other_schedule_compared",
+            "relation_classes/rows<t", "relation_classes/rows=t", "relation_classes/t<rows<=2t", "relation_classes/rows>2t",
+            "relation_classes/last_chunk_short", "faults_injected/ap_error", "faults_injected/stalled_worker",
+            "faults_injected/preemption", "cpu_counts_covered/query_failed", "cpu_counts_covered/257+"]
+           + ["cpu_counts_covered/%02d" % k for k in range(1, 17)],
+    "C20": ["reach_probes/clone_then_diverge", "reach_probes/two_histories_same_digraph_compared",
+            "reach_probes/neighbour_compared/arc", "reach_probes/neighbour_compared/order",
+            "reach_probes/neighbour_compared/weight", "reach_probes/complete_digraph_reached_by_history"],
+}
+
+
+def probes():
+    """Reach probes: counters that must be non-zero in the evidence of the last quick run of each check
+    (a probe stuck at zero means the workload or fault mix no longer reaches that condition)."""
+    ok = True
+    for pid, req in sorted(REQUIRED_PROBES.items()):
+        path = os.path.join(D.EVIDENCE, pid + ".json")
+        try:
+            cov = json.load(open(path))["coverage"]
+        except Exception as e:  # noqa: BLE001
+            D.log("PROBES %s: cannot read %s (%s)" % (pid, path, e))
+            ok = False
+            continue
+        zero = []
+        for r in req:
+            group, key = r.split("/", 1)
+            if not cov.get(group, {}).get(key, 0):
+                zero.append(r)
+        if zero:
+            D.log("PROBES %s: stuck at zero: %s" % (pid, ", ".join(zero)))
+            ok = False
+        else:
+            D.log("probes %s: all %d required probes fired" % (pid, len(req)))
+    return ok
+
+
 def fidelity():
     ws = D.workspace()
     binary = D.build_sched(ws, quiet=True)
@@ -225,6 +277,8 @@ def main(argv):
         ok &= determinism()
     if what in ("fidelity", "all"):
         ok &= fidelity()
+    if what in ("probes", "all"):
+        ok &= probes()
     if what in ("benign", "all"):
         ok &= benign(argv[1] if len(argv) > 1 else None)
     if what in ("sensitivity", "all"):
